@@ -13,7 +13,7 @@ ASSUMPTIONS = [
 ]
 REQUIRED_COUNTERS = ["optimal.conelp", "optimal.lp", "optimal.socp", "optimal.sdp", "kkt.ldl", "kkt.ldl2", "kkt.qr",
                      "kkt.chol", "kkt.chol2", "kkt.callable", "start.both", "start.primal", "start.dual",
-                     "storage.sparse", "junk", "wrapper-block-checks", "iteration0-shortcut", "backend.glpk", "backend.dsdp"]
+                     "storage.sparse", "junk", "wrapper-block-checks", "iteration0-shortcut", "backend.glpk", "backend.dsdp", "sparse-h.structural-zeros"]
 
 
 def plan(tier):
